@@ -632,7 +632,12 @@ func (ex *Exec) selectOp(fr *frame, x *ssa.Select) Value {
 		res[0] = ex.ctx.BV(64, ^uint64(0))
 		return res
 	}
-	pick := r[ex.Choose(len(r))]
+	var pick int
+	if ex.explore && len(r) > 1 {
+		pick = r[ex.chooseSched(len(r))]
+	} else {
+		pick = r[ex.Choose(len(r))]
+	}
 	res[0] = ex.intConst(int64(pick))
 	s := x.States[pick]
 	if s.Dir == types.SendOnly {
